@@ -73,6 +73,13 @@ def scenarios(quick):
             out.append(dict(entry=entry, kind="normalize_crlf", base="match", parent="present", fmode=0o644))
             out.append(dict(entry=entry, kind="same_content_crlf", base=None, parent="present", fmode=0o644))
             out.append(dict(entry=entry, kind="noop_change_cr", base=None, parent="present", fmode=0o644))
+            # builtin dict schema repair (META.STATUS case fold) happens between the first emission and the write
+            out.append(dict(entry=entry, kind="new_meta_casefold", base=None, parent="present", fmode=None))
+            out.append(dict(entry=entry, kind="overwrite_meta_casefold", base="match", parent="present", fmode=0o644))
+        if entry in ("atomic", "cli"):
+            # text that cannot be encoded as UTF-8 (a lone surrogate, e.g. from a surrogateescape'd argv or a JSON escape)
+            out.append(dict(entry=entry, kind="new_unencodable", base=None, parent="present", fmode=None))
+            out.append(dict(entry=entry, kind="overwrite_unencodable", base=None, parent="present", fmode=0o644))
     return out
 
 
@@ -114,7 +121,7 @@ def prepare(sc):
     else:
         target = os.path.join(sb, "f.oct.md")
     prev = None
-    if sc["kind"] != "new":
+    if sc["kind"] not in ("new", "new_meta_casefold", "new_unencodable"):
         prev = NONCANON_OLD if sc["kind"] == "normalize" else OLD
         if sc["kind"] in ("normalize_crlf", "same_content_crlf"):
             prev = OLD.replace("\n", "\r\n")
@@ -147,6 +154,8 @@ def make_call(sc, target, prev):
             kw.update(content="Just prose here, no octave at all", lenient=True)
         elif kind == "changes":
             kw["changes"] = {"K": "new", "ADDED": [1, 2, 3]}
+        elif kind in ("new_meta_casefold", "overwrite_meta_casefold"):
+            kw.update(content='===D===\nMETA:\n  TYPE::X\n  VERSION::"1.0"\n  STATUS::draft\n---\nA::1\n===END===\n', lenient=True, schema="META")
         elif kind == "same_content_crlf":
             kw["content"] = OLD
         elif kind == "noop_change_cr":
@@ -159,6 +168,8 @@ def make_call(sc, target, prev):
         from octave_mcp.core.emitter import emit
         from octave_mcp.core.parser import parse_with_warnings
         text = emit(parse_with_warnings(content)[0])
+        if kind.endswith("unencodable"):
+            text = text.replace("K::new→value", "K::\"n" + chr(0xDC80) + "w\"")
         atomic = _W["atomic"]
 
         def fn():
@@ -172,7 +183,10 @@ def make_call(sc, target, prev):
         else:
             from octave_mcp.core.emitter import emit
             from octave_mcp.core.parser import parse_with_warnings
-            argv += ["--content", emit(parse_with_warnings(content)[0])]
+            ctext = emit(parse_with_warnings(content)[0])
+            if kind.endswith("unencodable"):
+                ctext = ctext.replace("K::new→value", "K::\"n" + chr(0xDC80) + "w\"")
+            argv += ["--content", ctext]
         if base:
             argv += ["--base-hash", base]
 
